@@ -6,6 +6,9 @@ import (
 )
 
 // Term is an SMT term: w==0 means Bool, otherwise a bit-vector of width w.
+// The textual form is built eagerly; long terms are named with define-fun in the
+// solver scope in which they are created (safe because exploration is depth-first:
+// a value never outlives the solver scope it was created in).
 type Term struct {
 	s       string
 	w       int
@@ -16,6 +19,11 @@ type Term struct {
 	op      string
 	args    []*Term
 }
+
+// curSolver is the solver of this process; used for naming long terms.
+var curSolver *Solver
+
+const nameThreshold = 200
 
 func mask(w int) uint64 {
 	if w >= 64 {
@@ -45,6 +53,13 @@ func boolConst(b bool) *Term {
 	return tFalse
 }
 
+func finish(t *Term) *Term {
+	if len(t.s) > nameThreshold && curSolver != nil {
+		return curSolver.Name(t)
+	}
+	return t
+}
+
 func mk(w int, op string, args ...*Term) *Term {
 	var sb strings.Builder
 	sb.WriteByte('(')
@@ -54,8 +69,10 @@ func mk(w int, op string, args ...*Term) *Term {
 		sb.WriteString(a.s)
 	}
 	sb.WriteByte(')')
-	return &Term{s: sb.String(), w: w, op: op, args: args}
+	return finish(&Term{s: sb.String(), w: w, op: op, args: args})
 }
+
+func rawTerm(s string, w int) *Term { return finish(&Term{s: s, w: w}) }
 
 func sext(v uint64, w int) int64 {
 	if w >= 64 {
@@ -106,6 +123,7 @@ func tOr(a, b *Term) *Term {
 	}
 	return mk(0, "or", a, b)
 }
+func tImplies(a, b *Term) *Term { return tOr(tNot(a), b) }
 func tIte(c, a, b *Term) *Term {
 	if c.isConst {
 		if c.v == 1 {
@@ -116,6 +134,14 @@ func tIte(c, a, b *Term) *Term {
 	if a.s == b.s {
 		return a
 	}
+	if a.w == 0 && a.isConst && b.isConst {
+		if a.v == 1 && b.v == 0 {
+			return c
+		}
+		if a.v == 0 && b.v == 1 {
+			return tNot(c)
+		}
+	}
 	return mk(a.w, "ite", c, a, b)
 }
 func tEq(a, b *Term) *Term {
@@ -125,11 +151,17 @@ func tEq(a, b *Term) *Term {
 	if a.s == b.s {
 		return tTrue
 	}
+	if a.w != b.w {
+		panic(fmt.Sprintf("tEq: width mismatch %d vs %d (%s, %s)", a.w, b.w, a.s, b.s))
+	}
 	return mk(0, "=", a, b)
 }
 
 func bvBin(op string, a, b *Term) *Term {
 	w := a.w
+	if a.w != b.w {
+		panic(fmt.Sprintf("bvBin %s: width mismatch %d vs %d", op, a.w, b.w))
+	}
 	if a.isConst && b.isConst {
 		m := mask(w)
 		switch op {
@@ -163,6 +195,21 @@ func bvBin(op string, a, b *Term) *Term {
 			if b.v != 0 {
 				return bvConst(a.v%b.v, w)
 			}
+		case "bvsdiv":
+			if b.v != 0 {
+				x, y := sext(a.v, w), sext(b.v, w)
+				if !(y == -1 && x == sext(1<<uint(w-1), w)) {
+					return bvConst(uint64(x/y), w)
+				}
+			}
+		case "bvsrem":
+			if b.v != 0 {
+				x, y := sext(a.v, w), sext(b.v, w)
+				if y != -1 {
+					return bvConst(uint64(x%y), w)
+				}
+				return bvConst(0, w)
+			}
 		}
 	}
 	// canonicalise x - c  ==>  x + (-c), and fold (x + c1) + c2
@@ -180,6 +227,20 @@ func bvBin(op string, a, b *Term) *Term {
 		t.lin, t.linC = a, b.v
 		return t
 	}
+	// (x + c) - x  and  (x+c1) - (x+c2)
+	if op == "bvsub" {
+		ab, ac := a, uint64(0)
+		if a.lin != nil {
+			ab, ac = a.lin, a.linC
+		}
+		bb, bc := b, uint64(0)
+		if b.lin != nil {
+			bb, bc = b.lin, b.linC
+		}
+		if ab.s == bb.s {
+			return bvConst(ac-bc, w)
+		}
+	}
 	// light identities
 	if b.isConst && b.v == 0 && (op == "bvadd" || op == "bvsub" || op == "bvor" || op == "bvxor" || op == "bvshl" || op == "bvlshr") {
 		return a
@@ -187,10 +248,32 @@ func bvBin(op string, a, b *Term) *Term {
 	if a.isConst && a.v == 0 && (op == "bvadd" || op == "bvor" || op == "bvxor") {
 		return b
 	}
+	if op == "bvand" {
+		if b.isConst && b.v == mask(w) {
+			return a
+		}
+		if a.isConst && a.v == mask(w) {
+			return b
+		}
+		if (b.isConst && b.v == 0) || (a.isConst && a.v == 0) {
+			return bvConst(0, w)
+		}
+	}
+	if op == "bvmul" {
+		if b.isConst && b.v == 1 {
+			return a
+		}
+		if a.isConst && a.v == 1 {
+			return b
+		}
+	}
 	return mk(w, op, a, b)
 }
 
 func bvCmp(op string, a, b *Term) *Term {
+	if a.w != b.w {
+		panic(fmt.Sprintf("bvCmp %s: width mismatch %d vs %d", op, a.w, b.w))
+	}
 	if a.isConst && b.isConst {
 		w := a.w
 		switch op {
@@ -212,6 +295,14 @@ func bvCmp(op string, a, b *Term) *Term {
 			return boolConst(sext(a.v, w) >= sext(b.v, w))
 		}
 	}
+	if a.s == b.s {
+		switch op {
+		case "bvule", "bvuge", "bvsle", "bvsge":
+			return tTrue
+		default:
+			return tFalse
+		}
+	}
 	return mk(0, op, a, b)
 }
 
@@ -219,7 +310,7 @@ func bvExtract(hi, lo int, a *Term) *Term {
 	if a.isConst {
 		return bvConst(a.v>>uint(lo), hi-lo+1)
 	}
-	return &Term{s: fmt.Sprintf("((_ extract %d %d) %s)", hi, lo, a.s), w: hi - lo + 1}
+	return rawTerm(fmt.Sprintf("((_ extract %d %d) %s)", hi, lo, a.s), hi-lo+1)
 }
 func bvZext(a *Term, w int) *Term {
 	if a.w == w {
@@ -228,7 +319,7 @@ func bvZext(a *Term, w int) *Term {
 	if a.isConst {
 		return bvConst(a.v, w)
 	}
-	return &Term{s: fmt.Sprintf("((_ zero_extend %d) %s)", w-a.w, a.s), w: w}
+	return rawTerm(fmt.Sprintf("((_ zero_extend %d) %s)", w-a.w, a.s), w)
 }
 func bvSext(a *Term, w int) *Term {
 	if a.w == w {
@@ -237,7 +328,7 @@ func bvSext(a *Term, w int) *Term {
 	if a.isConst {
 		return bvConst(uint64(sext(a.v, a.w)), w)
 	}
-	return &Term{s: fmt.Sprintf("((_ sign_extend %d) %s)", w-a.w, a.s), w: w}
+	return rawTerm(fmt.Sprintf("((_ sign_extend %d) %s)", w-a.w, a.s), w)
 }
 
 // convert integer term a (signedness of source) to width w.
@@ -260,3 +351,5 @@ func sortOf(w int) string {
 	}
 	return fmt.Sprintf("(_ BitVec %d)", w)
 }
+
+func u64(v int64) *Term { return bvConst(uint64(v), 64) }
